@@ -152,6 +152,9 @@ def job_wrapper_iso(dim, n, nf, et, variant, tier):
             kw["mask"] = rnp.array([i == miss for i in range(n)])
         elif variant == "masked_array":
             fld = rnp.ma.array(rnp.array(fld, dtype=object), mask=[[i == miss for i in range(n)]] * nf)
+        elif variant == "masked_mixed":
+            # different masks per field: a point masked in one field only stays in the point set and is skipped for that field
+            fld = rnp.ma.array(rnp.array(fld, dtype=object), mask=[[i == (miss + m) % n for i in range(n)] for m in range(nf)])
         f_in = fld if nf > 1 or variant == "masked_array" else fld[0]
         if variant == "masked_array" and nf == 1:
             f_in = fld[0]
@@ -175,6 +178,9 @@ def job_wrapper_iso(dim, n, nf, et, variant, tier):
         if variant in ("mask", "masked_array"):
             for m in range(nf):
                 fv[m][miss] = None
+        if variant == "masked_mixed":
+            for m in range(nf):
+                fv[m][(miss + m) % n] = None
         ref = _pairs_ref(pts, fv, [b.e for b in B], et)
         for i in range(2):
             out.append(prove(f"{tag}/path{pi}/bin{i}/estimate==definition", p.conds, lift(est[i]) == ref[i][0], T, witness_vars=wv, replay=rb))
@@ -413,6 +419,8 @@ def jobs(tier, seed):
     for variant in ("plain", "nan", "no_data", "mask", "masked_array"):
         js.append(Job(f"wrapper-{variant}-d2-f1", job_wrapper_iso, 2, 3, 1, "m", variant, tier))
         js.append(Job(f"wrapper-{variant}-d1-f2", job_wrapper_iso, 1, 3, 2, "m", variant, tier))
+    js.append(Job("wrapper-masked_mixed-d1-f2", job_wrapper_iso, 1, 3, 2, "m", "masked_mixed", tier))
+    js.append(Job("wrapper-masked_mixed-d2-f2", job_wrapper_iso, 2, 3, 2, "m", "masked_mixed", tier))
     if big:
         js.append(Job("wrapper-plain-d3", job_wrapper_iso, 3, 3, 2, "m", "plain", tier))
     js.append(Job("wrapper-args", job_wrapper_args, tier))
@@ -467,6 +475,10 @@ def replay_wrapper(inputs):
     elif variant == "masked_array":
         Fin = np.ma.array(Fin, mask=[[i == miss for i in range(n)]] * nf)
         Fref[:, miss] = np.nan
+    elif variant == "masked_mixed":
+        Fin = np.ma.array(Fin, mask=[[i == (miss + m) % n for i in range(n)] for m in range(nf)])
+        for m in range(nf):
+            Fref[m, (miss + m) % n] = np.nan
     f_in = Fin if nf > 1 else Fin[0]
     bc, est, cnt = gs.vario_estimate(X if dim > 1 else [X[0]], f_in, list(B), estimator="matheron" if et == "m" else "cressie", return_counts=True, **kw)
     ref, rc = _brute(X, Fref, B, et)
